@@ -55,6 +55,47 @@ CLAIMED = {
   note='URI shape is enumerated (forked), content symbolic; string models for format/unhexlify/int(str,16) in vf/env/c20_env.py validated against CPython '
        'on every run; cflinkcpp and real USB enumeration outside; malformed-character harnesses enumerate 13 bad characters (labelled non-symbolic).',
   tech=TECH + '; z3 regular-expression emptiness queries generated from the source', ref='DESIGN.md §3 C20'),
+
+ 'C01': dict(
+  text='The real _RadioDriverThread.run / _send_packet_safe / RadioDriver.send_packet / receive_packet run synchronously against a fake radio backed by '
+       'a safelink peer model; per-transmission outcome {acked, uplink lost, ack lost} symbolic for k transmissions, uplink/downlink headers and payload bytes, '
+       'submission times, start-up negotiation replies and the retry budget symbolic. Asserts exactly-once in-order delivery both ways with unchanged header/payload, '
+       'byte-identical retransmission, link error exactly at the R-th consecutive unacknowledged transmission, safelink iff the exact echo was seen.',
+  note='k <= 6 transmissions quick / 9 thorough, m <= 2/3 packets each way, payload <= 2 symbolic bytes. Peer model written from the safelink protocol (firmware not available offline). '
+       'USB exceptions from the dongle, RadioManager sharing and rate-limit timing are outside.',
+  tech=TECH, ref='DESIGN.md §3 C01'),
+ 'C03': dict(
+  text='Inductive step of TocFetcher._new_packet_cb from an arbitrary fetcher state (table size up to 65535, requested index, reply ident/channel/type/name bytes symbolic) '
+       'for both protocol generations and both tables, the info step, bounded downloads through the real dispatcher with duplicated and stale replies, element decoding over all '
+       'type codes and name bytes, extended-type (persistence) fetch; table equals the device table and the three lookups agree.',
+  note='Step harness covers every table size incl. the 255/256 boundary; end-to-end downloads are bounded to <= 2 (quick) / 3-4 (thorough) entries plus concrete 255/257-entry witnesses. '
+       'Names that become dict keys are chosen by the solver from fixed sharing patterns; all byte values/lengths are decided in the decode harnesses. Device model written from the CRTP TOC protocol.',
+  tech=TECH, ref='DESIGN.md §3 C03'),
+ 'C05': dict(
+  text='Log.add_config acceptance over symbolic periods, every fetch type and payload sizes around 26 bytes; create/append messages for V2 and V1 parsed by a firmware-side reference parser '
+       '(symbolic idents, type nibbles, raw-memory addresses, up to 12/26 variables); log data decode with symbolic timestamp and payload bytes; lifecycle over solver-chosen enabled events '
+       '(add, start, stop, delete, acks with status, disconnect, reconnect, re-add); SyncLogger iteration.',
+  note='Bounds per harness in evidence (events <= 5 quick / 6-7 thorough). Periods decided with the real-number float model (int(p/10) == p//10 checked for the whole domain). '
+       'MAX_BLOCKS accounting, V1 configurations with more than 14 variables and stale added/started flags after reconnect are outside the statement.',
+  tech=TECH, ref='DESIGN.md §3 C05'),
+ 'C10': dict(
+  text='A real Crazyflie driven through solver-chosen histories over the enabled events {send request with expected reply, retry timer fires, packet arrives, close_link, link error, open_link} '
+       'with virtual timers; expected-reply bytes, received header and data bytes and needs_resending symbolic. Oracle from the statement: one retransmission of the same bytes per expiry at the '
+       'request\'s own interval while unanswered, none after the answer, longest-prefix cancellation only, no timers on reliable links, nothing sent on a closed link, no transmission of a request in a later session.',
+  note='<= 2 (quick) / 3 (thorough) pending requests, 4-6 events, <= 3 sessions. _answer_patterns is an association list with == lookup inside the harness subclass (symbolic tuples as dict keys would be realised). '
+       'Races between Timer.cancel() and an already running callback are outside.',
+  tech=TECH, ref='DESIGN.md §3 C10'),
+ 'C11': dict(
+  text='TocCache fetch/insert with fully symbolic 32-bit CRCs (file name rendering modelled nibble-wise, oracle reads the digits back), read-only/read-write directory combinations on an in-memory file system, '
+       'field fidelity of _encoder/_decoder for both element classes with symbolic fields and wire bytes, cache use through the real TocFetcher incl. log/param CRC collisions, and truncation of real cache files '
+       'at EVERY byte offset followed by fetch and a full reconnect.',
+  note='crash[*] harnesses fork over the truncation offset value by value because the JSON scanner is C code (labelled symbolic=False, exhaustive over the offset). JSON\'s own round trip of leaf values and foreign files in the cache directory are outside.',
+  tech=TECH, ref='DESIGN.md §3 C11'),
+ 'C12': dict(
+  text='Bootloader._internal_flash page arithmetic with symbolic image length, page size class, buffer pages, flash pages, start page and override against a flash model that judges every write when it executes; '
+       'end-to-end through the real Cloader.upload_buffer/write_flash with every image byte symbolic and lost/refused/duplicated flash-write replies; upload_buffer tiling; write_flash retry protocol.',
+  note='Page sizes 1..4 (quick) / 1..8 and 1024 (thorough), <= 6-12 pages; refusal is asserted as no flash-write command reaching the target. zip/manifest handling, deck flashing and loss of buffer-load packets are outside.',
+  tech=TECH, ref='DESIGN.md §3 C12'),
 }
 NOT_YET = {}
 NOT_APPLICABLE = {
